@@ -5,6 +5,8 @@ nothing is evaluated:
   unroll_static_loops   `for T in <literal tuple/list>` (or a local bound to one just before) -> the body once per element, the
                         loop targets replaced by the element's expressions;  a table scan `for T in <literal>: if C: S; break`
                         [`else: E`] -> the if/elif chain over the rows [with `else: E`]
+  specialise_dispatch   `if c1: def f.. elif c2: def f.. else: raise` followed by statements using f -> the statements moved into each
+                        arm with that arm's f (closure dispatch is the if/elif chain it abbreviates)
   inline_local_defs     a nested `def h(p): return e` / `h = lambda p: e` (or a nested def with straight-line statements and one
                         trailing return) used in the same function -> its body at the call site
   inline_stmt_calls     a call that is a whole statement (`h(a)`, `x = h(a)`, `x[i] = h(a)`, `x += h(a)`, `return h(a)`) to a helper
@@ -50,6 +52,18 @@ def _stored(stmts) -> set:
                         b = b.value
                     if isinstance(b, ast.Name) and b is not t:
                         out.add(b.id)
+    return out
+
+
+def _rebound(stmts) -> set:
+    """names (re)bound anywhere inside the statements -- unlike _stored, in-place mutation does not count"""
+    out = set()
+    for st in stmts:
+        for n in ast.walk(st):
+            if isinstance(n, ast.Name) and isinstance(n.ctx, (ast.Store, ast.Del)):
+                out.add(n.id)
+            elif isinstance(n, (ast.FunctionDef, ast.ClassDef, ast.AsyncFunctionDef)):
+                out.add(n.name)
     return out
 
 
@@ -160,7 +174,9 @@ def _unroll_one(loop: ast.For, seq):
         names = [e.id for e in tg.elts]
     else:
         return None
-    if set(names) & _stored(loop.body):
+    # the loop targets must not be RE-BOUND in the body; mutating the object a target names in place (`c.clear()`, `c[k] = v`)
+    # is the same operation on the element expression that replaces the target
+    if set(names) & _rebound(loop.body):
         return None
     out = []
     for e in seq.elts:
@@ -803,9 +819,86 @@ def const_getattr(node):
     return ast.fix_missing_locations(_ConstGetattr().visit(node))
 
 
+# ----------------------------------------------------------------------------------------------------- closure dispatch
+
+def specialise_dispatch(func):
+    """Closure dispatch
+
+        if c1:                          if c1:
+            def f(..): return e1            S[f := f_1]      (f_1 = the first arm's f)
+        elif c2:                 ->     elif c2:
+            def f(..): return e2            S[f := f_2]
+        else:                           else:
+            raise ..                        raise ..
+        S   (statements using f)
+
+    is the if/elif chain of specialised statements it abbreviates: the statements up to the last use of `f` are moved into every arm
+    that defines `f` (tail duplication -- arms that leave the block do not reach them anyway), each arm's `f` under a name of its own,
+    which inline_local_defs then substitutes.  Applied only when every arm either leaves the block or consists of nothing but the
+    definition of the one name, and that name is used nowhere else in the function."""
+    def arms_of(st):
+        out = []
+        while True:
+            out.append(st.body)
+            if len(st.orelse) == 1 and isinstance(st.orelse[0], ast.If):
+                st = st.orelse[0]
+                continue
+            out.append(st.orelse)          # [] when there is no else
+            return out
+
+    def leaves(body):
+        return bool(body) and isinstance(body[-1], (ast.Raise, ast.Return))
+
+    def only_def(body):
+        body = [b for b in body if not isinstance(b, ast.Pass) and not (isinstance(b, ast.Expr) and isinstance(b.value, ast.Constant))]
+        if len(body) == 1 and isinstance(body[0], ast.FunctionDef) and not body[0].decorator_list:
+            return body[0]
+        return None
+
+    def uses(node, name):
+        return [n for n in ast.walk(node) if isinstance(n, ast.Name) and n.id == name]
+
+    def block(stmts):
+        i = 0
+        while i < len(stmts):
+            st = stmts[i]
+            if isinstance(st, ast.If):
+                arms = arms_of(st)
+                defs = [only_def(a) for a in arms]
+                names = {d.name for d in defs if d is not None}
+                if len(names) == 1 and sum(d is not None for d in defs) >= 2 and all(d is not None or leaves(a) for d, a in zip(defs, arms)):
+                    (name,) = names
+                    last = max((j for j in range(i + 1, len(stmts)) if uses(stmts[j], name)), default=None)
+                    inside = sum(len(uses(stmts[j], name)) for j in range(i + 1, (last or i) + 1))
+                    everywhere = len(uses(func, name))
+                    stores = [n for n in uses(func, name) if isinstance(n.ctx, (ast.Store, ast.Del))]
+                    redefs = [n for n in ast.walk(func) if isinstance(n, (ast.FunctionDef, ast.ClassDef)) and n.name == name and not any(n is d for d in defs)]
+                    if last is not None and last - i <= 6 and inside == everywhere and not stores and not redefs \
+                            and not any(isinstance(n, (ast.FunctionDef, ast.ClassDef, ast.Lambda)) for j in range(i + 1, last + 1) for n in ast.walk(stmts[j])):
+                        tail = stmts[i + 1:last + 1]
+                        for d, a in zip(defs, arms):
+                            if d is None:
+                                continue
+                            new = f"{name}__arm{next(_counter)}"
+                            d.name = new
+                            a.extend(_Rename({name: new}).visit(copy.deepcopy(t)) for t in tail)
+                        del stmts[i + 1:last + 1]
+            for fld in ("body", "orelse", "finalbody"):
+                b = getattr(st, fld, None)
+                if isinstance(b, list) and b and isinstance(b[0], ast.stmt) and not isinstance(st, (ast.FunctionDef, ast.ClassDef, ast.AsyncFunctionDef)):
+                    block(b)
+            if isinstance(st, ast.Try):
+                for h in st.handlers:
+                    block(h.body)
+            i += 1
+    block(func.body)
+    return func
+
+
 def normalize_function(func, tables: dict | None = None):
     """the local normalisations (no knowledge of other functions needed); `tables`: module-level literal tables (module_tables)"""
     try:
+        specialise_dispatch(func)
         inline_local_defs(func)
         before = len(list(ast.walk(func)))
         unroll_static_loops(func, tables)
